@@ -189,7 +189,9 @@ impl<C: Suite> Model for M12<C> {
             }
         }
         let direct = guard(|| Option::<Vec<u8>>::from(it.ct.decrypt_with_shares(&ds)));
-        let viakey = guard(|| SignCryptDecryptionKey::<C>::from_shares(&ds).map(|key| Option::<Vec<u8>>::from(key.decrypt(&it.ct))));
+        // the combiner works on its own copy of the ciphertext
+        let copy = it.ct.clone();
+        let viakey = guard(|| SignCryptDecryptionKey::<C>::from_shares(&ds).map(|key| Option::<Vec<u8>>::from(key.decrypt(&copy))));
         o.calls(2);
         let (direct, viakey) = match (direct, viakey) {
             (Ok(a), Ok(b)) => (a, b),
@@ -259,7 +261,8 @@ impl<C: Suite> Model for M12<C> {
         if st.seq.is_empty() {
             for i in 0..it.n {
                 for j in 0..it.n {
-                    for (cn, ct, shares) in [("own-ciphertext", &it.ct, &it.ds), ("other-ciphertext", &it.ct2, &it.ds)] {
+                    let own_copy = it.ct.clone();
+                    for (cn, ct, shares) in [("own-ciphertext", &own_copy, &it.ds), ("other-ciphertext", &it.ct2, &it.ds)] {
                         let v = guard(|| shares[i].verify(&it.pks[j], ct));
                         o.calls(1);
                         let acc = matches!(v, Ok(Ok(())));
